@@ -305,6 +305,26 @@ class Report:
         return 1 if self.violations else 0
 
 
+def cone_changes(module):
+    """which functions entered or left the call cones this property's cone theorem is about (Gen.v against ExpectedCones.v)"""
+    try:
+        th = open(os.path.join(COQ, "theories", module + ".v")).read()
+        gen = open(os.path.join(COQ, "theories", "Gen.v")).read()
+        exp = open(os.path.join(COQ, "theories", "ExpectedCones.v")).read()
+    except OSError:
+        return {}
+    def lists(txt, prefix):
+        return {m.group(1): set(re.findall(r'"((?:[^"]|"")*)"', m.group(2)))
+                for m in re.finditer(r"Definition %s(\w+) : list string :=\n  \[(.*?)\]\.\n" % prefix, txt, re.S)}
+    g, e = lists(gen, "cone_"), lists(exp, "exp_cone_")
+    out = {}
+    for f in sorted(set(re.findall(r"strs_eqb cone_(\w+) exp_cone_", th))):
+        a, b = g.get(f, set()), e.get(f, set())
+        if a != b:
+            out[f] = {"entered": sorted(a - b), "left": sorted(b - a)}
+    return out
+
+
 def prove(rep, module, theorems, extra_targets=()):
     """Build the property's theorem file (and what it depends on) against the regenerated Gen.v and
     check Print Assumptions.  Returns True when every obligation is discharged."""
@@ -322,6 +342,9 @@ def prove(rep, module, theorems, extra_targets=()):
         errs = re.findall(r'File "\./theories/(\w+)\.v", line (\d+).*?\n(Error:.*?)(?:\n\n|\nmake|\Z)', out, re.S)
         rep.cov["discharged"] = 0
         rep.notes["broken_obligations"] = [{"file": f, "line": int(l), "error": e[:600]} for f, l, e in errs] or out[-1500:]
+        cc = cone_changes(module)
+        if cc:
+            rep.notes["call_cone_changes"] = cc
         return False
     pa = assumptions(module, theorems)
     good = 0
